@@ -1,3 +1,5 @@
+pub mod c14;
+pub mod c11;
 pub mod c07;
 pub mod c02;
 pub mod c13;
